@@ -42,7 +42,7 @@ def run_generic(prop, cfg, tier, seed, t0, post=None):
         if rc != 0 or not os.path.exists(os.path.join(outdir, "summary.json")):
             problems.append({"kind": "harness-run", "problems": ["harness exited with %s" % rc], "log_tail": hout[-4000:]})
         else:
-            tie = vlib.tie(outdir)
+            tie = vlib.tie(outdir, cfg.get("canon"))
             failures = tie["summary"]["oracle_failures"]
             if tie["disagreements"]:
                 problems.append({"kind": "correspondence", "problems": ["%d model/implementation disagreements" % len(tie["disagreements"])],
@@ -79,6 +79,9 @@ def run_generic(prop, cfg, tier, seed, t0, post=None):
         "distinct_nontrivial": tie["distinct_nontrivial"] if tie else 0,
         "samples": tie["samples"] if tie else [],
         "tie_disagreements": len(tie["disagreements"]) if tie else None,
+        "tie_cases": tie["tie_cases"] if tie else 0,
+        "spec_oracle_cases": tie["oracle_cases"] if tie else 0,
+        "order_only_differences": tie["order_only_differences"] if tie else 0,
         "oracle_failures_total": len(failures),
         "oracle_failures_known": {c: len(v) for c, v in hits.items()},
         "input_distribution": (tie["summary"]["hist"] if tie else {}),
